@@ -11,7 +11,7 @@
 typedef struct { void *(*_malloc)(size_t); void *(*_calloc)(size_t, size_t); void (*_free)(void *); } m_memhook_t;
 extern m_memhook_t memhook;
 
-enum { O_NEW, O_REF, O_UNREF, O_UNREFP, O_SIZE, O_NULLS, O_NEWSZ, O_MANYREF };
+enum { O_NEW, O_REF, O_UNREF, O_UNREFP, O_SIZE, O_NULLS, O_NEWSZ, O_MANYREF, O_HUGE };
 #define MANY 140000        /* crosses 2^8, 2^16 and 2^17 outstanding references */
 #define NS 3
 static const size_t SZ[] = { 0, 1, 7, 8, 15, 16, 17, 24, 40, 100, 4096 };
@@ -74,6 +74,38 @@ static void on_free(void *raw) {
     if (B[i].freed++) sx_fail("MEM.free", "MEM.free|twice", "block %d released twice", i);
 }
 
+/* sizes beyond 32 bits: the allocator hands out an untouched MAP_NORESERVE mapping, so no memory is consumed */
+#include <sys/mman.h>
+static int huge_want_dtor; static int huge_dtor_expected(void) { return huge_want_dtor; }
+static const size_t HUGE_SZ[] = { 0xffffffffull, 0x100000000ull, 0x100000064ull, 0x200000007ull };
+static void *huge_p; static size_t huge_sz; static int huge_allocs, huge_frees, huge_bad, huge_dtor, huge_refused;
+static void *huge_calloc(size_t n, size_t sz) { size_t t = n * sz; void *p = mmap(NULL, t, PROT_READ | PROT_WRITE, MAP_PRIVATE | MAP_ANONYMOUS | MAP_NORESERVE, -1, 0);
+    if (p == MAP_FAILED) { huge_refused = 1; return NULL; } huge_p = p; huge_sz = t; huge_allocs++; return p; }
+static void *huge_malloc(size_t sz) { return huge_calloc(1, sz); }
+static void huge_free(void *p) { if (p && p == huge_p) { if (huge_dtor_expected() && !huge_dtor) huge_bad = 2; munmap(huge_p, huge_sz); huge_p = NULL; huge_frees++; } else if (p) huge_bad = 1; }
+static void huge_dtor_cb(void *p) { (void)p; huge_dtor++; if (huge_frees) huge_bad = 3; }
+static void do_huge(int k, int withdtor) {
+    size_t size = HUGE_SZ[k];
+    huge_p = NULL; huge_allocs = huge_frees = huge_bad = huge_dtor = huge_refused = 0; huge_want_dtor = withdtor;
+    memhook._malloc = huge_malloc; memhook._calloc = huge_calloc; memhook._free = huge_free;
+    uint8_t *p = m_mem_new(size, withdtor ? huge_dtor_cb : NULL);
+    if (!p) { memhook._malloc = lg_malloc; memhook._calloc = lg_calloc; memhook._free = lg_free;
+        if (huge_refused) { sx_obs(77); return; }      /* the system refused the mapping: nothing to check */
+        sx_fail("MEM.new", "MEM.new|null-huge", "m_mem_new(%zu) returned NULL although the allocator delivered", size); }
+    if ((uintptr_t)p % alignof(max_align_t)) sx_fail("MEM.align", "MEM.align|huge", "m_mem_new(%zu): pointer not aligned", size);
+    if (huge_allocs != 1 || p < (uint8_t *)huge_p || p + size > (uint8_t *)huge_p + huge_sz || p + size < p) sx_fail("MEM.bounds", "MEM.bounds|huge", "user area of %zu bytes not inside the %zu bytes allocated", size, huge_sz);
+    if (m_mem_size(p) != size) sx_fail("MEM.size", "MEM.size|huge", "m_mem_size=%zu, requested %zu", m_mem_size(p), size);
+    if (p[0] || p[size - 1]) sx_fail("MEM.zero", "MEM.zero|huge", "new block not zeroed"); p[0] = 1; p[size - 1] = 2;
+    if (m_mem_ref(p) != p) sx_fail("MEM.ref", "MEM.ref|ret", "m_mem_ref returned a different pointer");
+    m_mem_unref(p);
+    if (huge_frees || huge_dtor) sx_fail("MEM.alive", "MEM.alive|huge", "block of %zu bytes destroyed while a reference is held", size);
+    if (m_mem_size(p) != size || p[0] != 1 || p[size - 1] != 2) sx_fail("MEM.content", "MEM.content|huge", "block of %zu bytes changed under a held reference", size);
+    m_mem_unref(p);
+    memhook._malloc = lg_malloc; memhook._calloc = lg_calloc; memhook._free = lg_free;
+    if (huge_bad) sx_fail("MEM.free", "MEM.free|huge-order", "release of the %zu byte block went wrong (code %d)", size, huge_bad);
+    if (huge_frees != 1) sx_fail("MEM.free", "MEM.free|missing", "block of %zu bytes released %d times at the last unref", size, huge_frees);
+    if (withdtor && huge_dtor != 1) sx_fail("MEM.dtor", "MEM.dtor|missing", "destructor of the %zu byte block ran %d times", size, huge_dtor);
+}
 static void h_reset(void) {
     memset(B, 0, sizeof B); for (int i = 0; i < NS; i++) B[i].holds = -1;
     cur_new = -1; in_dtor_of = -1;
@@ -147,6 +179,7 @@ static void h_apply(op_t op) {
             if (B[i].dtor_calls || B[i].freed) sx_fail("MEM.alive", "MEM.alive|many", "block destroyed although %d references are still held (after dropping %d of %d additional references)", B[i].refs, k + 1, MANY);
         }
         check_pattern(i, "after many ref/unref"); break; }
+    case O_HUGE: do_huge(op.b & 3, op.d); break;
     case O_NULLS: {
         void *n = NULL;
         if (m_mem_ref(NULL) || m_mem_unref(NULL) || m_mem_size(NULL)) sx_fail("MEM.null", "MEM.null", "NULL not tolerated");
@@ -218,6 +251,7 @@ static void h_fmt(op_t op, char *b, size_t cap) {
     case O_SIZE: snprintf(b, cap, "size(slot%d)", op.a); break;
     case O_NULLS: snprintf(b, cap, "null-args"); break;
     case O_MANYREF: snprintf(b, cap, "ref x%d then unref x%d (slot%d)", MANY, MANY, op.a); break;
+    case O_HUGE: snprintf(b, cap, "new(%zu bytes,%s) size ref unref unref", HUGE_SZ[op.b & 3], op.d ? "dtor" : "no dtor"); break;
     default: snprintf(b, cap, "?"); }
 }
 
@@ -238,8 +272,11 @@ static void h_extra2(void) {
         h.ops[h.n++] = (op_t){O_NEW, 0, 5, d}; h.ops[h.n++] = (op_t){O_MANYREF, 0, 0, 0}; h.ops[h.n++] = (op_t){O_REF, 0, 0, 0}; h.ops[h.n++] = (op_t){O_UNREF, 0, 0, 0};
         sx_run_extra(&h); }
 }
-static void h_extra_all(void) { h_extra(); h_extra2(); }
-static const char *h_cfg(void) { return "3 slots, 11 size classes, all sizes 0..4096"; }
+static void h_extra3(void) {      /* sizes around and beyond 2^32 (never touched, so nothing is consumed) */
+    for (int k = 0; k < 4; k++) for (int d = 0; d < 2; d++) { hist_t h = {0}; h.ops[h.n++] = (op_t){O_HUGE, 0, k, d}; sx_run_extra(&h); }
+}
+static void h_extra_all(void) { h_extra(); h_extra2(); h_extra3(); }
+static const char *h_cfg(void) { return "3 slots, 11 size classes, all sizes 0..4096, sizes 2^32-1 .. 2^33+7"; }
 
 int main(int argc, char **argv) {
     static const sx_harness H = { "c10_mem", NULL, h_reset, h_enabled, h_apply, h_canon, 2, h_probe, h_cleanup, h_fmt, h_cfg, h_extra_all };
